@@ -510,6 +510,7 @@ package datalog
 //@ requires c != nil && facts != nil && factsWF(*facts) && predsWF(predicates) && exprsWF(expressions) && syms != nil && partialBindingsWF(variables)
 //@ modifies *syms, spare(*syms)
 //@ chan c yields x: x.error != nil || (x.MatchedVariables != nil && bindingsWF(x.MatchedVariables))
+//@ chan c yields x: tableGrown(*syms, old(*syms))
 //@ chan c final_if x: x.error != nil
 //@ chan c closes
 //@ loop 0 modifies current, indexes, elems(indexes), *syms, spare(*syms)
@@ -552,7 +553,45 @@ package datalog
 //@ loop 0 invariant variables != nil && fresh(variables) && partialBindingsWF(variables)
 //@ loop 1 invariant variables != nil && fresh(variables) && partialBindingsWF(variables)
 //@ loop 2 invariant wf: factsWF(*newFacts) && factsWF(*facts)
+//@ loop 2 invariant table: tableGrown(*syms, old(*syms))
 //@ loop 2 invariant apart: arr(*facts) != arr(*newFacts) || cap(*newFacts) == 0
 //@ loop 2 invariant arr: (arr(*newFacts) == pre(arr(*newFacts)) && off(*newFacts) == pre(off(*newFacts)) && cap(*newFacts) == pre(cap(*newFacts)) && len(*newFacts) >= pre(len(*newFacts))) || freshInLoop(arr(*newFacts))
 //@ loop 3 invariant factsWF(*newFacts) && factsWF(*facts) && len(predicate.Terms) == len(r.Head.Terms) && fresh(arr(predicate.Terms)) && (forall q int :: { predicate.Terms[q] } 0 <= q && q < len(predicate.Terms) ==> termWF(predicate.Terms[q]))
-//@ ensures wf: factsWF(*newFacts)
+//@ ensures wf: factsWF(*newFacts) && factsWF(*facts)
+//@ ensures same_or_fresh_array: (arr(*newFacts) == old(arr(*newFacts)) && off(*newFacts) == old(off(*newFacts)) && cap(*newFacts) == old(cap(*newFacts)) && len(*newFacts) >= old(len(*newFacts))) || fresh(arr(*newFacts))
+//@ ensures source_untouched: *facts == old(*facts)
+//@ ensures table: tableGrown(*syms, old(*syms))
+
+// ---------------------------------------------------------------------------
+// the fixpoint loop runs on its own goroutine; World.Run waits for its verdict
+// or for the deadline (C05 C11)
+
+//@ func World.Run$1()
+//@ serves C05 C10 C11
+//@ requires w != nil && w.facts != nil && factsWF(*w.facts) && rulesWF(w.rules) && syms != nil && ctx != nil
+//@ modifies *w.facts, spare(*w.facts), *syms, spare(*syms)
+//@ chan done sends_at_most 1
+//@ chan done final_if x: true
+//@ chan done yields x: factsWF(*w.facts)
+//@ chan done yields x: x == nil ==> len(*w.facts) < w.runLimits.maxFacts
+//@ chan done sends x: x == nil ==> newCount == prevCount
+//@ loop 0 modifies *w.facts, spare(*w.facts), *syms, spare(*syms)
+//@ loop 1 modifies newFacts, spare(newFacts), *syms, spare(*syms)
+//@ loop 0 invariant !sentFinal(done) && sentCount(done) == 0 && factsWF(*w.facts) && tableGrownInLoop(*syms, pre(*syms))
+//@ loop 0 invariant (arr(*w.facts) == pre(arr(*w.facts)) && off(*w.facts) == pre(off(*w.facts)) && cap(*w.facts) == pre(cap(*w.facts)) && len(*w.facts) >= pre(len(*w.facts))) || freshInLoop(arr(*w.facts))
+//@ loop 1 invariant !sentFinal(done) && sentCount(done) == 0 && factsWF(*w.facts) && factsWF(newFacts) && tableGrownInLoop(*syms, pre(*syms))
+//@ loop 1 invariant arr(*w.facts) != arr(newFacts) || cap(newFacts) == 0
+//@ loop 1 invariant (arr(newFacts) == pre(arr(newFacts)) && off(newFacts) == pre(off(newFacts)) && cap(newFacts) == pre(cap(newFacts)) && len(newFacts) >= pre(len(newFacts))) || freshInLoop(arr(newFacts))
+
+//@ func (w *World) Run(syms *SymbolTable) (err error)
+//@ serves C04 C05 C10 C11
+//@ requires w != nil && w.facts != nil && factsWF(*w.facts) && rulesWF(w.rules) && syms != nil
+//@ modifies *w.facts, spare(*w.facts), *syms, spare(*syms)
+//@ ensures success_is_within_limits[C11]: err == nil ==> len(*w.facts) < w.runLimits.maxFacts
+//@ ensures facts_wf: err != ErrWorldRunLimitTimeout ==> factsWF(*w.facts)
+
+//@ func (w *World) QueryRule(rule Rule, syms *SymbolTable) (res *FactSet)
+//@ serves C04 C05 C10
+//@ requires w != nil && w.facts != nil && factsWF(*w.facts) && ruleWF(rule) && syms != nil
+//@ modifies *syms, spare(*syms)
+//@ ensures res != nil && fresh(res) && factsWF(*res) && *w.facts == old(*w.facts)
